@@ -1,16 +1,30 @@
 """C14 — tiling covers every voxel in bounds; tile contents/offsets; schedules respect the limits."""
-import itertools
+import contextlib
+import io
+import operator
+import os
+import types
 
 import numpy as np
 
 ID = "C14"
-RULE = ("split_shape exhaustively for all (N, k<=N) up to a bound plus k>N and 2-3 axis products; subset_by_slice on random "
-        "tiles/margins incl. margins larger than the remaining data, contents decoded through an index-valued target; "
-        "schedules for random (shape, template, cores, memory, score, analyzer) requests. distinct = distinct request tuples; "
-        "k=1 splits and zero-margin whole-volume tiles are trivial and not counted")
-ASSUMPTIONS = ["np.ceil(N/k) is exact for the extents explored (float64 division of small integers)",
-               "the schedule's memory clause is about the search's *own* estimate (estimate_ram_usage), as the property states"]
+RULE = ("split_shape exhaustively for all (N, k<=N) up to a bound plus k>N, 2-3 axis products with every container / integer type "
+        "the callers use (tuple, list, ndarray, numpy integers, splits handed back from a schedule, the block-wise peak finder's "
+        "N//d requests), extents up to 2^26 and the unequal-extent variant; subset_by_slice on random tiles/margins incl. margins "
+        "larger than the remaining data, contents decoded through an index-valued target, for every kind of matching data the API "
+        "accepts (C/Fortran/strided/reversed/offset/read-only arrays, five dtypes, numpy.memmap with offset / Fortran order / views, "
+        "Density in memory and memory-mapped from an MRC file), target masks, template sub-boxes, inverted targets, default "
+        "arguments, several tiles cut from one object in sequence, and whole tilings reassembled from their valid crops; "
+        "schedules for random (shape, template, cores, memory, score, analyzer, backend, byte widths, split axes, default and given "
+        "max_splits) requests, sessions of requests sharing their shapes, limits placed exactly on an estimate, and the command "
+        "line tool's compute_schedule. distinct = distinct request tuples; k=1 splits and zero-margin whole-volume tiles are "
+        "trivial and not counted")
+ASSUMPTIONS = ["np.ceil(N/k) is exact for the extents explored (float64 division of integers below 2^53)",
+               "the schedule's memory clause is about the search's *own* estimate (estimate_ram_usage), as the property states",
+               "an inverted target (invert_target=True) is expected to hold the negated voxels at the same positions"]
 TRUSTED = ["C14: numpy.pad(mode='reflect') semantics are modelled by reflectIdx and validated here against real tiles"]
+
+_quiet = contextlib.redirect_stdout
 
 
 def _extract_mem_table():
@@ -33,19 +47,51 @@ def _extract_mem_table():
     return out
 
 
+def _call(fn, *a, **kw):
+    """run library code; an exception is an outcome (the kind is part of it), never a crash of the check"""
+    try:
+        with _quiet(io.StringIO()):
+            return True, fn(*a, **kw)
+    except SystemExit as e:
+        return False, f"SystemExit({e.code})"
+    except Exception as e:  # noqa
+        return False, f"{type(e).__name__}: {str(e)[:160]}"
+
+
 def _slices(t):
     return [[int(s.start), int(s.stop)] for s in t]
 
 
-def _spec_split(ctx, shape, splits, tiles, key="split_shape:tiles"):
+def _tiles_wellformed(tiles, nd):
+    """every tile is a tuple of nd slice objects with integral bounds and no (or unit) step"""
+    for t in tiles:
+        if not isinstance(t, tuple) or len(t) != nd:
+            return f"tile {t!r} is not a {nd}-tuple"
+        for s in t:
+            if not isinstance(s, slice) or s.step not in (None, 1):
+                return f"{s!r} is not a plain slice"
+            for v in (s.start, s.stop):
+                if isinstance(v, (bool, np.bool_)):
+                    return f"{s!r} has a boolean bound"
+                try:
+                    operator.index(v)
+                except TypeError:
+                    return f"{s!r} has a non-integral bound ({type(v).__name__})"
+    return ""
+
+
+def _spec_split(ctx, shape, splits, tiles, key="split_shape:tiles", extra=None):
     """property clause: non-empty, in-bounds boxes of equal extent whose union is the whole shape;
     as many as requested"""
-    ks = [max(splits.get(i, 1), 1) for i in range(len(shape))]
+    shape = tuple(int(x) for x in shape)
+    ks = [max(int(splits.get(i, 1)), 1) for i in range(len(shape))]
     ok = len(tiles) == int(np.prod(ks))
+    why = "" if ok else f"{len(tiles)} tiles for {ks} parts"
     cover = np.zeros(shape, bool)
     ext0 = None
-    why = ""
     for t in tiles:
+        if not ok:
+            break
         ext = tuple(b - a for a, b in t)
         if any(a < 0 or b > n or a >= b for (a, b), n in zip(t, shape)):
             ok, why = False, f"tile {t} empty or out of bounds"
@@ -58,26 +104,80 @@ def _spec_split(ctx, shape, splits, tiles, key="split_shape:tiles"):
         cover[tuple(slice(a, b) for a, b in t)] = True
     if ok and not cover.all():
         ok, why = False, "union is not the whole shape"
-    return ctx.spec("tiles: non-empty, in bounds, equal extent, cover", {"shape": list(shape), "splits": {str(k): v for k, v in splits.items()}},
-                    ok, why, key=key)
+    inp = {"shape": list(shape), "splits": {str(k): int(v) for k, v in splits.items()}}
+    if extra:
+        inp.update(extra)
+    return ctx.spec("tiles: non-empty, in bounds, equal extent, cover", inp, ok, why, key=key)
 
 
-def run(ctx):
-    from tme.matching_utils import split_shape, compute_parallelization_schedule
-    from tme.matching_data import MatchingData
-    from tme.memory import estimate_ram_usage
-    d = ctx.driver
-    rng = ctx.rng("main")
+def _spec_split_long(ctx, N, k, tiles, extra=None):
+    """the same clause for one long axis, by interval arithmetic (no array of N voxels)"""
+    ok, why = True, ""
+    if len(tiles) != k:
+        ok, why = False, f"{len(tiles)} tiles for {k} parts"
+    else:
+        L = tiles[0][1] - tiles[0][0]
+        reach = 0
+        for a, b in sorted(tiles):
+            if a < 0 or b > N or a >= b:
+                ok, why = False, f"tile {[a, b]} empty or out of bounds"
+                break
+            if b - a != L:
+                ok, why = False, f"unequal extents {b - a} vs {L}"
+                break
+            if a > reach:
+                ok, why = False, f"voxels {reach}..{a - 1} in no tile"
+                break
+            reach = max(reach, b)
+        if ok and reach != N:
+            ok, why = False, f"voxels {reach}..{N - 1} in no tile"
+    inp = {"shape": [N], "splits": {"0": k}}
+    if extra:
+        inp.update(extra)
+    return ctx.spec("tiles: non-empty, in bounds, equal extent, cover", inp, ok, why, key="split_shape:tiles")
 
-    # ---- memory registry extracted by reflection == model table
-    ext = _extract_mem_table()
-    model_tab = d.call("c14.memTable")
-    ctx.obligation("MATCHING_MEMORY_REGISTRY bilinear", all(e["bilinear"] for e in ext), ext)
-    ctx.obligation("MATCHING_MEMORY_REGISTRY == Pm.C14.memTable",
-                   [{k: e[k] for k in ("name", "base", "fork")} for e in ext] == model_tab, {"extracted": ext, "model": model_tab})
-    ctx.sample({"extracted_registry_row": ext[4]})
 
-    # ---- split_shape, one axis, exhaustive
+def _spec_split_unequal(ctx, shape, ks, tiles):
+    """equal_shape=False: as many boxes as requested, non-empty, in bounds, disjoint, union = shape"""
+    ok = len(tiles) == int(np.prod(ks))
+    why = "" if ok else f"{len(tiles)} tiles for {ks} parts"
+    cover = np.zeros(shape, np.int32)
+    for t in tiles:
+        if not ok:
+            break
+        if any(a < 0 or b > n or a >= b for (a, b), n in zip(t, shape)):
+            ok, why = False, f"tile {t} empty or out of bounds"
+            break
+        cover[tuple(slice(a, b) for a, b in t)] += 1
+    if ok and not (cover == 1).all():
+        ok, why = False, "tiles overlap or leave voxels out"
+    return ctx.spec("tiles (equal_shape=False): non-empty, in bounds, disjoint, cover", {"shape": list(shape), "splits": list(ks)},
+                    ok, why, key="split_shape:unequal")
+
+
+# ------------------------------------------------------------------------------------------------ split_shape
+
+def _as_shape(rng, shape):
+    r = int(rng.integers(0, 5))
+    if r == 0:
+        return tuple(shape), "tuple"
+    if r == 1:
+        return list(shape), "list"
+    if r == 2:
+        return np.array(shape, dtype=np.int64), "int64-array"
+    if r == 3:
+        return np.array(shape, dtype=np.int32), "int32-array"
+    return tuple(np.int64(x) for x in shape), "numpy-ints"
+
+
+def _as_count(rng, k):
+    r = int(rng.integers(0, 3))
+    return (int(k), np.int64(k), np.int32(k))[r]
+
+
+def _run_split(ctx, d, rng):
+    from tme.matching_utils import split_shape
+    # ---- one axis, exhaustive
     NB = ctx.budget(64, 256)
     reqs, keep = [], []
     for N in range(1, NB + 1):
@@ -90,48 +190,282 @@ def run(ctx):
             keep.append((N, k))
     models = d.batch(reqs)
     for (N, k), m in zip(keep, models):
-        tiles = [_slices(t) for t in split_shape((N,), {0: k})]
+        ok, tl = _call(split_shape, (N,), {0: k})
+        if not ok:
+            ctx.spec("tiles: non-empty, in bounds, equal extent, cover", {"shape": [N], "splits": {"0": k}}, k > N, tl, key="split_shape:tiles")
+            continue
+        tiles = [_slices(t) for t in tl]
         ctx.agree("split_shape", {"N": N, "k": k}, tiles, m)
         if k <= N:
             _spec_split(ctx, (N,), {0: k}, tiles)
             if k > 1:
                 ctx.distinct(("split1", N, k))
         ctx.count("split:1axis" + (":k>N" if k > N else ""))
-    # ---- 2-3 axes
-    for _ in range(ctx.budget(150, 1500)):
-        nd = int(rng.integers(2, 4))
-        shape = tuple(int(x) for x in rng.integers(1, 14 if nd == 3 else 30, size=nd))
+    # ---- 1-3 axes; containers and integer types of the callers; part counts up to the extent and beyond; keys that are
+    # missing, zero, negative or name no axis; the caller's dict and shape stay as they were
+    for it in range(ctx.budget(300, 3000)):
+        nd = int(rng.integers(1, 4))
+        hi = {1: 60, 2: 30, 3: 14}[nd]
+        shape = tuple(int(x) for x in rng.integers(1, hi, size=nd))
         splits = {}
+        beyond = False
         for ax in range(nd):
             r = rng.random()
-            if r < 0.25:
+            if r < 0.2:
                 continue  # axis missing from the dict
-            splits[ax] = int(rng.integers(0 if r < 0.35 else 1, min(shape[ax], 5) + 1))
-        tiles = [_slices(t) for t in split_shape(shape, dict(splits))]
-        m = d.call("c14.splitShape", shape=list(shape), splits=[splits.get(i, 1) for i in range(nd)])
-        ctx.agree("split_shape(nD)", {"shape": shape, "splits": splits}, tiles, m)
-        _spec_split(ctx, shape, splits, tiles)
-        if any(v > 1 for v in splits.values()):
-            ctx.distinct(("splitn", shape, tuple(sorted(splits.items()))))
-        ctx.count(f"split:{nd}axes")
-    ctx.sample({"split_shape": {"shape": shape, "splits": splits, "tiles": tiles[:4]}})
-
-    # ---- subset_by_slice: contents, margins, offsets
-    ntiles = ctx.budget(120, 1200)
-    for it in range(ntiles):
+            if r < 0.3:
+                k = int(rng.choice([0, -1, -3]))
+            elif r < 0.55:
+                k = int(rng.integers(1, min(shape[ax], 5) + 1))
+            elif r < 0.93:
+                k = int(rng.integers(1, shape[ax] + 1))
+            else:
+                k = shape[ax] + int(rng.integers(1, 4))
+                beyond = True
+            splits[ax] = _as_count(rng, k)
+        if rng.random() < 0.15:
+            splits[nd + int(rng.integers(0, 2))] = 3  # names no axis of this shape
+        if rng.random() < 0.25:
+            d_ = int(rng.integers(1, 9))  # the block-wise peak finder: N // min_distance parts on every axis
+            splits = {i: x // d_ for i, x in enumerate(shape)}
+            beyond = False
+            ctx.count("split:peak-finder-request")
+        if rng.random() < 0.4:
+            splits = {k: splits[k] for k in rng.permutation(list(splits.keys())).tolist()}   # a dict is not ordered by axis
+        shp, kind = _as_shape(rng, shape)
+        before = (dict(splits), [type(v).__name__ for v in splits.values()], [int(x) for x in shp])
+        ok, tl = _call(split_shape, shp, splits)
+        inp = {"shape": shape, "splits": {str(k): int(v) for k, v in splits.items()}, "shape_given_as": kind}
+        if not ok:
+            ctx.spec("tiles: non-empty, in bounds, equal extent, cover", inp, False, tl, key="split_shape:tiles")
+            continue
+        bad = _tiles_wellformed(tl, nd)
+        after = (dict(splits), [type(v).__name__ for v in splits.values()], [int(x) for x in shp])
+        ctx.spec("tiles are plain index boxes; the request is left as it was", inp, not bad and before == after,
+                 bad or {"before": before, "after": after}, key="split_shape:boxes")
+        if bad:
+            continue
+        tiles = [_slices(t) for t in tl]
+        m = d.call("c14.splitShape", shape=list(shape), splits=[max(int(splits.get(i, 1)), 0) for i in range(nd)])
+        ctx.agree("split_shape(nD)", inp, tiles, m)
+        if not beyond:
+            _spec_split(ctx, shape, {k: int(v) for k, v in splits.items() if k < nd}, tiles, extra={"shape_given_as": kind})
+        if any(int(v) > 1 for v in splits.values()):
+            ctx.distinct(("splitn", shape, tuple(sorted((int(k), int(v)) for k, v in splits.items()))))
+        ctx.count(f"split:{nd}axes" + (":k>N" if beyond else ""))
+        ctx.count("split:shape-as-" + kind)
+    ctx.sample({"split_shape": inp, "tiles": tiles[:4]})
+    # ---- long axes (the float division behind ceil(N/k) must stay exact), many parts
+    for it in range(ctx.budget(60, 400)):
+        e = rng.random()
+        N = int(rng.integers(1000, 100000)) if e < 0.3 else int(rng.integers(10 ** 5, 2 ** 24)) if e < 0.55 else int(rng.integers(2 ** 24, 2 ** 26))
+        r = rng.random()
+        if N >= 2 ** 22 and r < 0.55:
+            k = int(rng.integers(2, 13))   # quotients that single precision cannot tell from the next integer
+        elif r < 0.4:
+            k = int(rng.integers(2, 60))
+        elif r < 0.7:
+            k = int(rng.integers(60, 3000))
+        else:
+            q = int(rng.integers(2, 3000))  # N just above / below a multiple of k
+            k = max(2, min(3000, N // q + int(rng.integers(-1, 2))))
+        ok, tl = _call(split_shape, (N,), {0: k})
+        if not ok:
+            ctx.spec("tiles: non-empty, in bounds, equal extent, cover", {"shape": [N], "splits": {"0": k}}, False, tl, key="split_shape:tiles")
+            continue
+        tiles = [_slices(t)[0] for t in tl]
+        _spec_split_long(ctx, N, k, tiles)
+        if k <= 400:
+            m = d.call("c14.splitShape", shape=[N], splits=[k])
+            ctx.agree("split_shape", {"N": N, "k": k}, [[t] for t in tiles], m)
+        ctx.distinct(("split-long", N, k))
+        ctx.count("split:long-axis")
+    for N in (2 ** 24 + 1, 2 ** 24 + 3, 2 ** 25 + 1, 2 ** 25 + 6, 2 ** 26 - 1, 2 ** 26 + 10, 3 * 2 ** 24 + 5):
+        for k in (2, 3, 4, 5, 7, 8):
+            ok, tl = _call(split_shape, (N,), {0: k})
+            if not ok:
+                ctx.spec("tiles: non-empty, in bounds, equal extent, cover", {"shape": [N], "splits": {"0": k}}, False, tl, key="split_shape:tiles")
+                continue
+            _spec_split_long(ctx, N, k, [_slices(t)[0] for t in tl])
+            ctx.distinct(("split-long", N, k))
+            ctx.count("split:long-axis")
+    # ---- equal_shape=False (extent floor(N/k), the last box takes the remainder)
+    NU = ctx.budget(24, 64)
+    reqs, keep = [], []
+    for N in range(1, NU + 1):
+        for k in range(1, N + 3):
+            reqs.append(("c14.splitShapeU", {"shape": [N], "splits": [k]}))
+            keep.append(((N,), (k,)))
+    for it in range(ctx.budget(40, 300)):
         nd = int(rng.integers(2, 4))
-        shape = tuple(int(x) for x in rng.integers(2, 9 if nd == 3 else 14, size=nd))
+        shape = tuple(int(x) for x in rng.integers(1, 12, size=nd))
+        ks = tuple(int(rng.integers(1, s + 1)) for s in shape)
+        reqs.append(("c14.splitShapeU", {"shape": list(shape), "splits": list(ks)}))
+        keep.append((shape, ks))
+    models = d.batch(reqs)
+    for (shape, ks), m in zip(keep, models):
+        ok, tl = _call(split_shape, shape, {i: k for i, k in enumerate(ks)}, equal_shape=False)
+        fits = all(k <= n for k, n in zip(ks, shape))
+        if not ok:
+            ctx.spec("tiles (equal_shape=False): non-empty, in bounds, disjoint, cover", {"shape": list(shape), "splits": list(ks)},
+                     not fits, tl, key="split_shape:unequal")
+            continue
+        tiles = [_slices(t) for t in tl]
+        ctx.agree("split_shape(equal_shape=False)", {"shape": shape, "splits": ks}, tiles, m)
+        if fits:
+            _spec_split_unequal(ctx, shape, ks, tiles)
+            if any(k > 1 for k in ks):
+                ctx.distinct(("splitU", shape, ks))
+        ctx.count("split:unequal" + ("" if fits else ":k>N"))
+
+
+# ------------------------------------------------------------------------------------------------ tiles
+
+_TARGET_KINDS = ["c", "c", "fortran", "strided", "reversed", "offset-view", "read-only", "memmap", "memmap-offset", "memmap-fortran",
+                 "memmap-view", "memmap-r+", "density", "density-memmap", "density-memmap.data"]
+_DTYPES = [np.float32, np.float32, np.float64, np.int32, np.int64, np.int16]
+_fileno = [0]
+
+
+def _scratch_file(suffix):
+    from pv import env
+    _fileno[0] += 1
+    return os.path.join(env.scratch(), f"c14_{os.getpid()}_{_fileno[0]}{suffix}")
+
+
+def _make_array(vals, kind):
+    """`vals` (C-contiguous) presented the way `kind` says; the values seen through the result are those of `vals`"""
+    from tme import Density
+    shape, dt = vals.shape, vals.dtype
+    nd = vals.ndim
+    if kind == "c":
+        return vals.copy()
+    if kind == "fortran":
+        return np.asfortranarray(vals)
+    if kind == "strided":
+        big = np.full(tuple(2 * s for s in shape), -7, dtype=dt)
+        view = big[tuple(slice(None, None, 2) for _ in shape)]
+        view[...] = vals
+        return view
+    if kind == "reversed":
+        return np.flip(np.flip(vals).copy())
+    if kind == "offset-view":
+        big = np.full(tuple(s + 3 for s in shape), -7, dtype=dt)
+        view = big[tuple(slice(2, s + 2) for s in shape)]
+        view[...] = vals
+        return view
+    if kind == "read-only":
+        a = vals.copy()
+        a.setflags(write=False)
+        return a
+    if kind in ("memmap", "memmap-r+"):
+        fn = _scratch_file(".bin")
+        vals.tofile(fn)
+        return np.memmap(fn, dtype=dt, mode="r" if kind == "memmap" else "r+", shape=shape)
+    if kind == "memmap-offset":
+        fn = _scratch_file(".bin")
+        head = 3 * dt.itemsize + 1024
+        with open(fn, "wb") as f:
+            f.write(bytes(range(256)) * (head // 256) + bytes(head % 256))
+            f.write(vals.tobytes())
+        return np.memmap(fn, dtype=dt, mode="r", offset=head, shape=shape)
+    if kind == "memmap-fortran":
+        fn = _scratch_file(".bin")
+        vals.ravel(order="F").tofile(fn)
+        return np.memmap(fn, dtype=dt, mode="r", shape=shape, order="F")
+    if kind == "memmap-view":
+        fn = _scratch_file(".bin")
+        big = np.full(tuple(s + 3 for s in shape), -7, dtype=dt)
+        big[tuple(slice(2, s + 2) for s in shape)] = vals
+        big.tofile(fn)
+        return np.memmap(fn, dtype=dt, mode="r", shape=big.shape)[tuple(slice(2, s + 2) for s in shape)]
+    if kind == "density":
+        return Density(vals.copy(), origin=np.zeros(nd), sampling_rate=np.ones(nd))
+    if kind in ("density-memmap", "density-memmap.data"):
+        fn = _scratch_file((".mrc", ".mrc", ".em", ".h5")[_fileno[0] % 4])
+        Density(vals.copy(), origin=np.zeros(nd), sampling_rate=np.ones(nd)).to_file(fn)
+        dens = Density.from_file(fn, use_memmap=True)
+        return dens if kind == "density-memmap" else dens.data
+    raise ValueError(kind)
+
+
+def _plain(a):
+    from tme import Density
+    return np.asarray(a.data if isinstance(a, Density) else a)
+
+
+def _expect_tile(vol, sl, pads):
+    """the property's reading, independent of the model: extent = addressed + 2*margin; wherever the position lies in the
+    volume, that voxel; beyond an edge the mirrored voxel (as far as a single reflection of the extracted range reaches)"""
+    shape = vol.shape
+    nd = vol.ndim
+    lefts = [(p + p % 2) // 2 for p in pads]
+    want_shape = [s.stop - s.start + 2 * l for s, l in zip(sl, lefts)]
+    coords = []
+    valid = np.ones(want_shape, bool)
+    for ax, (n, s, l) in enumerate(zip(shape, sl, lefts)):
+        pos = np.arange(want_shape[ax]) + s.start - l
+        lo, hi = max(s.start - l, 0), min(s.stop + l, n)   # extracted real range
+        nprime = hi - lo
+        src = np.where(pos < 0, -pos, np.where(pos >= n, 2 * (n - 1) - pos, pos))
+        single = (pos >= -(nprime - 1)) & (pos <= n - 1 + (nprime - 1))
+        src = np.clip(src, 0, n - 1)
+        shp = [1] * nd
+        shp[ax] = -1
+        coords.append(src)
+        valid &= single.reshape(shp)
+    return want_shape, valid, vol[np.ix_(*coords)]
+
+
+def _check_tile(ctx, d, vol, got, sl, pads, inp, what, sign=1, key="subset_array"):
+    """model agreement and property clause for one extracted array.  vol: the values of the whole array (float64),
+    got: the tile (ndarray), sl: python-int slices, pads: effective (non-negative) margins"""
+    got = np.asarray(got).astype(np.float64) * sign
+    shape = vol.shape
+    axes = d.batch([("c14.tileAxis", {"N": n, "start": s.start, "stop": s.stop, "p": p}) for n, s, p in zip(shape, sl, pads)])
+    ctx.agree(f"subset_array extents ({what})", inp, list(got.shape), [a["extent"] for a in axes])
+    if list(got.shape) == [a["extent"] for a in axes]:
+        idx = np.ix_(*[np.array(a["src"], dtype=int) for a in axes])
+        ctx.agree(f"subset_array contents ({what})", inp, got.reshape(-1).tolist(), vol[idx].reshape(-1).tolist())
+    want_shape, valid, exp = _expect_tile(vol, sl, pads)
+    ok, why = True, ""
+    if list(got.shape) != want_shape:
+        ok, why = False, f"{what}: shape {list(got.shape)} != {want_shape}"
+    else:
+        if not np.array_equal(got[valid], exp[valid]):
+            bad = np.argwhere(valid & (got != exp))
+            ok, why = False, (f"{what}: contents differ from addressed voxels + neighbours + single mirror at tile index "
+                              f"{bad[0].tolist()}: {got[tuple(bad[0])]} instead of {exp[tuple(bad[0])]}")
+        elif not np.isin(got, vol).all():
+            ok, why = False, f"{what}: tile holds values that are not voxels of the volume"
+    ctx.spec("tile = addressed voxels + margin (neighbours / mirrored), offset", inp, ok, why, key=key)
+    return ok
+
+
+def _rand_slices(rng, shape, p_full=0.3):
+    sl = []
+    for n in shape:
+        a = int(rng.integers(0, n))
+        b = int(rng.integers(a + 1, n + 1))
+        if rng.random() < p_full:
+            a, b = 0, n
+        sl.append(slice(a, b))
+    return sl
+
+
+def _run_tiles_basic(ctx, d, rng):
+    """C-contiguous float32 targets, random tiles / margins (the stream of the first version)"""
+    from tme.matching_data import MatchingData
+    ntiles = ctx.budget(200, 1200)
+    for it in range(ntiles):
+        nd = int(rng.integers(1, 4))
+        shape = tuple(int(x) for x in rng.integers(1 if rng.random() < 0.2 else 2, {1: 30, 2: 14, 3: 9}[nd], size=nd))
         target = np.arange(int(np.prod(shape)), dtype=np.float32).reshape(shape)
         tshape = tuple(int(x) for x in rng.integers(1, 8, size=nd))
         template = np.ones(tshape, dtype=np.float32)
-        md = MatchingData(target=target, template=template)
-        sl, pads = [], []
-        for n in shape:
-            a = int(rng.integers(0, n))
-            b = int(rng.integers(a + 1, n + 1))
-            if rng.random() < 0.3:
-                a, b = 0, n
-            sl.append(slice(a, b))
+        with _quiet(io.StringIO()):
+            md = MatchingData(target=target, template=template)
+        sl = _rand_slices(rng, shape)
         mode = rng.random()
         if mode < 0.5:
             pads = list(md.target_padding(pad_target=True))
@@ -139,195 +473,658 @@ def run(ctx):
             pads = [int(x) for x in rng.integers(0, 2 * max(shape) + 3, size=nd)]  # incl. larger than the data
         else:
             pads = [0] * nd
-        sub = md.subset_by_slice(target_slice=tuple(sl), target_pad=np.array(pads))
-        got = np.asarray(sub._target)
-        axes = d.batch([("c14.tileAxis", {"N": n, "start": s.start, "stop": s.stop, "p": p}) for n, s, p in zip(shape, sl, pads)])
         inp = {"shape": shape, "slice": [[s.start, s.stop] for s in sl], "pad": pads}
-        ctx.agree("subset_array extents", inp, list(got.shape), [a["extent"] for a in axes])
-        if list(got.shape) == [a["extent"] for a in axes]:
-            idx = np.ix_(*[np.array(a["src"], dtype=int) for a in axes])
-            ctx.agree("subset_array contents", inp, got.astype(int).reshape(-1).tolist(), target[idx].astype(int).reshape(-1).tolist())
-        ctx.agree("translation offset", inp, [int(x) for x in sub._translation_offset], [s.start for s in sl])
-        # spec (property text, independent of the model): addressed voxels + margin, real neighbours where they
-        # exist, mirrored beyond the volume edge (single reflection), offset = un-padded start
-        ok, why = True, ""
+        ok, sub = _call(md.subset_by_slice, target_slice=tuple(sl), target_pad=np.array(pads))
+        if not ok:
+            ctx.spec("tile = addressed voxels + margin (neighbours / mirrored), offset", inp, False, sub, key="subset_array")
+            continue
+        got = np.asarray(sub._target)
+        _check_tile(ctx, d, target.astype(np.float64), got, sl, pads, inp, "target")
+        off = [int(x) for x in sub._translation_offset]
+        ctx.agree("translation offset", inp, off, [s.start for s in sl])
+        ctx.spec("tile offset = un-padded start of the tile", inp, off == [s.start for s in sl], {"offset": off}, key="subset_array:offset")
         lefts = [(p + p % 2) // 2 for p in pads]
-        want_shape = [s.stop - s.start + 2 * l for s, l in zip(sl, lefts)]
-        if list(got.shape) != want_shape:
-            ok, why = False, f"shape {got.shape} != {want_shape}"
-        else:
-            coords = []
-            valid = np.ones(want_shape, bool)
-            for ax, (n, s, l) in enumerate(zip(shape, sl, lefts)):
-                pos = np.arange(want_shape[ax]) + s.start - l
-                lo, hi = max(s.start - l, 0), min(s.stop + l, n)   # extracted real range
-                nprime = hi - lo
-                src = np.where(pos < 0, -pos, np.where(pos >= n, 2 * (n - 1) - pos, pos))
-                single = (pos >= -(nprime - 1)) & (pos <= n - 1 + (nprime - 1))
-                src = np.clip(src, 0, n - 1)
-                shp = [1] * nd
-                shp[ax] = -1
-                coords.append(src)
-                valid &= single.reshape(shp)
-            exp = target[np.ix_(*coords)]
-            if not np.array_equal(got[valid], exp[valid]):
-                ok, why = False, "contents differ from addressed voxels + neighbours + single mirror"
-            if not set(np.unique(got)).issubset(set(np.unique(target))):
-                ok, why = False, "tile holds values that are not voxels of the volume"
-        if [int(x) for x in sub._translation_offset] != [s.start for s in sl]:
-            ok, why = False, "offset is not the un-padded tile start"
-        ctx.spec("tile = addressed voxels + margin (neighbours / mirrored), offset", inp, ok, why, key="subset_array")
         if any(pads) or any((s.start, s.stop) != (0, n) for s, n in zip(sl, shape)):
             ctx.distinct(("tile", shape, tuple((s.start, s.stop) for s in sl), tuple(pads)))
         big = any(l > (min(s.stop + l, n) - max(s.start - l, 0)) - 1 for n, s, l in zip(shape, sl, lefts) if l)
         ctx.count("tile:" + ("margin>data" if big else "margin" if any(pads) else "nomargin"))
-    ctx.sample({"subset_by_slice": inp, "tile_shape": list(got.shape)})
-    # offsets place scores: target_padding and the valid-mode arithmetic (exhaustive small)
+    ctx.sample({"subset_by_slice": inp})
+
+
+def _as_pad(rng, pads):
+    r = int(rng.integers(0, 5))
+    if r == 0:
+        return tuple(int(p) for p in pads), "tuple"
+    if r == 1:
+        return [int(p) for p in pads], "list"
+    if r == 2:
+        return np.array(pads, dtype=np.int64), "int64-array"
+    if r == 3:
+        return np.array(pads, dtype=np.int32), "int32-array"
+    return tuple(np.int64(p) for p in pads), "numpy-ints"
+
+
+def _run_tiles_kinds(ctx, d, rng):
+    """every kind of matching data the API accepts; masks; template sub-boxes; inversion; defaults; sequences on one object"""
+    from tme.matching_data import MatchingData
+    nobj = ctx.budget(260, 1600)
+    for it in range(nobj):
+        nd = int(rng.integers(1, 4))
+        kind = _TARGET_KINDS[int(rng.integers(0, len(_TARGET_KINDS)))]
+        if kind.startswith("density-memmap"):
+            nd = 3
+        shape = tuple(int(x) for x in rng.integers(2, {1: 30, 2: 14, 3: 9}[nd], size=nd))
+        size = int(np.prod(shape))
+        dt = np.dtype(np.float32 if kind.startswith("density-memmap") else _DTYPES[int(rng.integers(0, len(_DTYPES)))])
+        base = int(rng.choice([0, 1000, -500]))  # values far from zero, negative values
+        if dt.name in ("float64", "int32", "int64") and rng.random() < 0.4:
+            base = 2 ** 24 + 1   # voxels that single precision cannot hold: the tile holds the voxels, not roundings of them
+        vol = (np.arange(size).reshape(shape) + base).astype(dt)
+        target = _make_array(vol, kind)
+        # target mask
+        mkind = None
+        tmask = mvol = None
+        if rng.random() < 0.4:
+            mkind = str(rng.choice(["c", "fortran", "memmap-offset", "density"] + (["density-memmap"] if nd == 3 else [])))
+            mvol = (2 * np.arange(size).reshape(shape) + 5).astype(np.float32)
+            tmask = _make_array(mvol, mkind)
+        # template (+ mask)
+        tshape = tuple(int(x) for x in rng.integers(1, 8, size=nd))
+        tvol = (np.arange(int(np.prod(tshape))).reshape(tshape) + 3).astype(np.float32)
+        tmvol = None
+        if rng.random() < 0.5:
+            tmvol = (3 * np.arange(int(np.prod(tshape))).reshape(tshape) + 1).astype(np.float32)
+        invert = bool(rng.random() < 0.2)
+        kw = dict(target=target, template=tvol.copy())
+        if tmask is not None:
+            kw["target_mask"] = tmask
+        if tmvol is not None:
+            kw["template_mask"] = tmvol.copy()
+        if invert:
+            kw["invert_target"] = True
+        head = {"shape": shape, "target": kind, "dtype": dt.name, "value_offset": base, "target_mask": mkind, "template": tshape,
+                "template_mask": tmvol is not None, "invert_target": invert}
+        ok, md = _call(MatchingData, **kw)
+        if not ok:
+            ctx.spec("tile = addressed voxels + margin (neighbours / mirrored), offset", head, False, md, key="subset_array")
+            continue
+        ncalls = int(rng.integers(1, 5))
+        history = []
+        for c in range(ncalls):
+            # a later request may leave out what an earlier one gave: the defaults are the whole array and no margin
+            give_slice = rng.random() < 0.85
+            give_pad = rng.random() < (0.8 if c == 0 else 0.6)
+            sl = _rand_slices(rng, shape) if give_slice else [slice(0, n) for n in shape]
+            mode = rng.random()
+            if not give_pad:
+                pads_req = [0] * nd
+            elif mode < 0.45:
+                pads_req = list(md.target_padding(pad_target=True))
+            elif mode < 0.8:
+                pads_req = [int(x) for x in rng.integers(0, 2 * max(shape) + 3, size=nd)]
+            elif mode < 0.9:
+                pads_req = [int(x) for x in rng.integers(-3, 6, size=nd)]  # a negative request is no margin
+            else:
+                pads_req = [0] * nd
+            pads = [max(p, 0) for p in pads_req]
+            call = {}
+            np_bounds = bool(rng.random() < 0.4)
+            if give_slice:
+                call["target_slice"] = tuple(slice(np.int64(s.start), np.int64(s.stop)) if np_bounds else s for s in sl)
+            pad_as = None
+            if give_pad:
+                call["target_pad"], pad_as = _as_pad(rng, pads_req)
+            # template sub-box (rare: pads on the template)
+            tsl = [slice(0, n) for n in tshape]
+            tpads = [0] * nd
+            if rng.random() < 0.35:
+                tsl = _rand_slices(rng, tshape, p_full=0.4)
+                call["template_slice"] = tuple(tsl)
+            if rng.random() < 0.12:
+                tpads = [int(x) for x in rng.integers(0, 5, size=nd)]
+                call["template_pad"] = np.array(tpads)
+            inp = dict(head)
+            inp.update({"slice": [[s.start, s.stop] for s in sl] if give_slice else None, "pad": pads_req if give_pad else None,
+                        "pad_given_as": pad_as, "numpy_slice_bounds": np_bounds and give_slice,
+                        "template_slice": [[s.start, s.stop] for s in tsl] if "template_slice" in call else None,
+                        "template_pad": tpads if "template_pad" in call else None, "earlier_requests_on_this_object": list(history)})
+            history.append({"slice": inp["slice"], "pad": inp["pad"]})
+            ok, sub = _call(md.subset_by_slice, **call)
+            if not ok:
+                ctx.spec("tile = addressed voxels + margin (neighbours / mirrored), offset", inp, False, sub, key="subset_array")
+                continue
+            sign = -1 if invert else 1
+            good = _check_tile(ctx, d, vol.astype(np.float64), _plain(sub._target), sl, pads, inp, "target", sign=sign,
+                               key="subset_array:inverted" if invert else "subset_array")
+            if mvol is not None:
+                good &= _check_tile(ctx, d, mvol.astype(np.float64), _plain(sub._target_mask), sl, pads, inp, "target mask")
+            elif getattr(sub, "_target_mask", None) is not None:
+                ctx.spec("tile = addressed voxels + margin (neighbours / mirrored), offset", inp, False, "a target mask appeared", key="subset_array")
+            good &= _check_tile(ctx, d, tvol.astype(np.float64), _plain(sub._template), tsl, tpads, inp, "template", key="subset_array:template")
+            if tmvol is not None:
+                good &= _check_tile(ctx, d, tmvol.astype(np.float64), _plain(sub._template_mask), tsl, tpads, inp, "template mask",
+                                    key="subset_array:template")
+            else:
+                tm = _plain(sub._template_mask)
+                ctx.spec("tile = addressed voxels + margin (neighbours / mirrored), offset", inp,
+                         tm.shape == _plain(sub._template).shape and bool((tm == 1).all()), "default template mask of the tile is not all ones",
+                         key="subset_array:template")
+            off = [int(x) for x in sub._translation_offset]
+            ctx.agree("translation offset", inp, off, [s.start for s in sl])
+            ctx.spec("tile offset = un-padded start of the tile", inp, off == [s.start for s in sl], {"offset": off}, key="subset_array:offset")
+            if give_pad and min(pads_req) >= 0 or not give_pad:
+                # the margin is cropped from the scores in 'valid' mode, which is chosen through this mark
+                ctx.spec("a tile that carries a margin is marked as padded (its scores are cropped back to the tile)", inp,
+                         bool(getattr(sub, "_is_padded", False)) == any(p > 0 for p in pads), {"_is_padded": bool(getattr(sub, "_is_padded", False))},
+                         key="subset_array:padded-mark")
+            ctx.distinct(("tile-kind", kind, dt.name, shape, tuple((s.start, s.stop) for s in sl), tuple(pads_req), invert, mkind, c))
+            ctx.count("tile-kind:" + kind)
+            ctx.count("tile-dtype:" + dt.name)
+            if not give_pad and any(h["pad"] and any(h["pad"]) for h in history[:-1]):
+                ctx.count("tile:margin-left-out-after-given")
+            if invert:
+                ctx.count("tile:inverted")
+            if mkind:
+                ctx.count("tile:target-mask:" + mkind)
+        # the matching data itself is as it was
+        same = np.array_equal(_plain(md._target), vol) and np.array_equal(_plain(md._template), tvol)
+        if mvol is not None:
+            same &= np.array_equal(_plain(md._target_mask), mvol)
+        ctx.spec("cutting tiles leaves the matching data unchanged", head, bool(same), key="subset_array:source-changed")
+        del md, target, tmask
+    ctx.sample({"subset_by_slice(kinds)": inp})
+
+
+def _run_reassemble(ctx, d, rng):
+    """the way scan_subsets uses the pieces: tiles from split_shape, the margin from target_padding; the valid crop of every
+    padded tile, put back at the tile's offset, rebuilds the volume"""
+    from tme.matching_data import MatchingData
+    from tme.matching_utils import split_shape
+    for it in range(ctx.budget(110, 600)):
+        nd = int(rng.integers(1, 4))
+        shape = tuple(int(x) for x in rng.integers(2, {1: 40, 2: 18, 3: 10}[nd], size=nd))
+        tshape = tuple(int(x) for x in rng.integers(1, 10, size=nd))   # incl. templates larger than a tile / the target
+        kind = str(rng.choice(["c", "fortran", "density", "memmap-offset"] + (["density-memmap"] if nd == 3 else [])))
+        vol = (np.arange(int(np.prod(shape))).reshape(shape) + 11).astype(np.float32)
+        stack = bool(nd > 1 and rng.random() < 0.2)   # a stack of images searched with one image-sized template
+        with _quiet(io.StringIO()):
+            md = MatchingData(target=_make_array(vol, kind), template=np.ones(tshape[1:] if stack else tshape, np.float32))
+            if stack:
+                md._set_matching_dimension(target_dims=(0,))
+        if stack:
+            tshape = (1,) + tshape[1:]    # along the stack every entry is matched on its own
+        splits = {ax: _as_count(rng, int(rng.integers(1, min(shape[ax], 6) + 1))) for ax in range(nd) if rng.random() < 0.8}
+        padded = bool(rng.random() < 0.8)
+        inp = {"shape": shape, "template": tshape, "target": kind, "splits": {str(k): int(v) for k, v in splits.items()}, "pad_target": padded,
+               "target_is_a_stack_along_axis_0": stack}
+        ok, res = _call(lambda: (split_shape(md._target.shape, splits=splits), md.target_padding(pad_target=padded)))
+        if not ok:
+            ctx.spec("valid crops of the padded tiles, placed at their offsets, rebuild the volume", inp, False, res, key="tiling:reassembled")
+            continue
+        tiles, pad = res
+        out = np.full(shape, np.nan)
+        ok, why = True, ""
+        for t in tiles:
+            okc, sub = _call(md.subset_by_slice, target_slice=t, target_pad=pad)
+            if not okc:
+                ok, why = False, sub
+                break
+            got = _plain(sub._target).astype(np.float64)
+            off = [int(x) for x in sub._translation_offset][-nd:]
+            ext = [s.stop - s.start for s in t]
+            if padded:
+                # 'valid' scores of a (padded tile, template m): extent np - m + m % 2, score j sits on tile voxel j + (m - m % 2) // 2
+                vext = [g - m + m % 2 for g, m in zip(got.shape, tshape)]
+                left = [(m - m % 2) // 2 for m in tshape]
+            else:
+                vext, left = list(got.shape), [0] * nd
+            if vext != ext:
+                ok, why = False, f"tile {_slices(t)}: {vext} scores for {ext} voxels"
+                break
+            try:
+                out[tuple(slice(o, o + e) for o, e in zip(off, ext))] = got[tuple(slice(l, l + e) for l, e in zip(left, ext))]
+            except (ValueError, IndexError) as e:
+                ok, why = False, f"tile {_slices(t)} with offset {off} does not fit into the volume: {e}"
+                break
+        if ok and not np.array_equal(out, vol.astype(np.float64)):
+            bad = np.argwhere(out != vol)
+            ok, why = False, f"voxel {bad[0].tolist()} rebuilt as {out[tuple(bad[0])]}, is {vol[tuple(bad[0])]}"
+        ctx.spec("valid crops of the padded tiles, placed at their offsets, rebuild the volume", inp, ok, why, key="tiling:reassembled")
+        if len(tiles) > 1:
+            ctx.distinct(("reassemble", shape, tshape, tuple(sorted(inp["splits"].items())), padded))
+        ctx.count("reassemble:" + ("padded" if padded else "plain") + (":stack" if stack else ""))
+
+
+def _run_padding(ctx, d, rng):
+    from tme.matching_data import MatchingData
     for m in range(1, 20):
-        pad_m = int(MatchingData(target=np.zeros((25,), np.float32), template=np.zeros((m,), np.float32)).target_padding(pad_target=True)[0])
+        with _quiet(io.StringIO()):
+            md = MatchingData(target=np.zeros((25,), np.float32), template=np.zeros((m,), np.float32))
+        pad_m = int(md.target_padding(pad_target=True)[0])
         ctx.agree("target_padding", {"m": m}, pad_m, d.call("c14.targetPadding", m=m))
         # the margin is what makes a padded tile's scores land on the tile itself: the 'valid' extent of (box + margin) against a
         # template of extent m, (box + margin) - m + m % 2, must be the box again, for every box
         ctx.spec("tile margin: scores of a padded tile cover exactly the tile (offset places them back)", {"template_extent": m, "margin": pad_m},
                  all((box + pad_m) - m + m % 2 == box for box in range(1, 40)), {"valid extent for box 10": (10 + pad_m) - m + m % 2},
                  key="tile-margin")
+        ctx.spec("no margin unless asked for", {"template_extent": m}, list(md.target_padding()) == [0] and list(md.target_padding(pad_target=False)) == [0],
+                 key="tile-margin:unasked")
+    # n-D, mixed parities, templates larger than the target, a batch axis on the target (entries of a batch are no neighbours)
+    for it in range(ctx.budget(150, 800)):
+        nd = int(rng.integers(1, 4))
+        shape = tuple(int(x) for x in rng.integers(1, 20, size=nd))
+        tshape = tuple(int(x) for x in rng.integers(1, 24, size=nd))
+        with _quiet(io.StringIO()):
+            md = MatchingData(target=np.zeros(shape, np.float32), template=np.zeros(tshape, np.float32))
+        batch = [0] * nd
+        r = rng.random()
+        if nd > 1 and r < 0.15:
+            with _quiet(io.StringIO()):   # a stack of images and one image-sized template
+                md = MatchingData(target=np.zeros(shape, np.float32), template=np.zeros(tshape[1:], np.float32))
+        if nd > 1 and r < 0.4:
+            okb, _ = _call(md._set_matching_dimension, target_dims=(0,) if rng.random() < 0.7 else 0)
+            if not okb:
+                ctx.count("padding:batch-request-refused")
+                continue
+            batch[0] = 1
+        inp = {"target": shape, "template": list(md._template.shape), "target_batch_axes": batch}
+        ok, pad = _call(md.target_padding, pad_target=True)
+        if not ok:
+            ctx.spec("tile margin: scores of a padded tile cover exactly the tile (offset places them back)", inp, False, pad, key="tile-margin")
+            continue
+        ms = [int(x) for x in md._output_template_shape]
+        ctx.agree("target_padding(nD)", inp, [int(p) for p in pad], d.call("c14.targetPaddingB", m=ms, batch=batch))
+        okm = len(pad) == len(ms) and all(isinstance(p, int) for p in pad)
+        for p, m, b in zip(pad, ms, batch):
+            okm &= (p == 0) if b else all((box + p) - m + m % 2 == box for box in (1, 2, 7, 10))
+        ctx.spec("tile margin: scores of a padded tile cover exactly the tile (offset places them back)", inp, bool(okm),
+                 {"margin": [int(p) for p in pad], "template extents seen by the search": ms}, key="tile-margin")
+        ctx.count("padding:nD" + (":batch" if any(batch) else ""))
 
-    # ---- schedules
-    methods = ["CC", "LCC", "CORR", "CAM", "MCC", "FLCSphericalMask", "FLC"]
-    analyzers = [None, "MaxScoreOverRotations", "PeakCallerMaximumFilter", "PeakCallerSort"]
-    nsch = ctx.budget(60, 500)
-    import io
-    import contextlib
+
+# ------------------------------------------------------------------------------------------------ schedules
+
+_METHODS = ["CC", "LCC", "CORR", "CAM", "MCC", "FLCSphericalMask", "FLC"]
+_ANALYZERS = [None, "MaxScoreOverRotations", "PeakCallerMaximumFilter", "PeakCallerSort"]
+_CORES = [1, 2, 3, 4, 5, 6, 7, 8, 9, 12, 16, 24, 25, 32, 36, 48, 64]
+
+
+def _est(shape, pad, shape2, method, ncores, analyzer, backend, nb):
+    from tme.memory import estimate_ram_usage
+    kw = {}
+    if nb is not None:
+        kw = dict(float_nbytes=nb[0], complex_nbytes=nb[1], integer_nbytes=nb[2])
+    return int(estimate_ram_usage(shape1=np.add(shape, pad), shape2=shape2, matching_method=method, ncores=ncores,
+                                  analyzer_method=analyzer, backend=backend, **kw))
+
+
+def _check_schedule(ctx, d, req, res, inp, clause_key="schedule"):
+    """req: dict with shape1, shape2, pad, cores, max_ram, method, analyzer, backend, nb, only_outer, max_splits, split_axes.
+    Model agreement + the property's clauses on the implementation's own answer."""
+    from tme.matching_utils import split_shape
+    nd = len(req["shape1"])
+    nb = req["nb"] or (4, 8, 4)
+    # an integer estimate is below a fractional limit iff it is below the next whole number
+    args = dict(shape1=list(req["shape1"]), shape2=list(req["shape2"]), padding=list(req["pad"]), maxCores=req["cores"], maxRam=int(-(-req["max_ram"] // 1)),
+                method=req["method"], onlyOuter=req["only_outer"], maxSplits=req["max_splits"], fb=nb[0], cb=nb[1])
+    if req["analyzer"]:
+        args["analyzer"] = req["analyzer"]
+    if req["backend"]:
+        args["backend"] = req["backend"]
+    if req["split_axes"] is not None:
+        args["splitAxes"] = list(req["split_axes"])
+    m = d.call("c14.schedule", **args)
+    clause = "schedule: cores, concurrent tiles, own memory estimate"
+    if not (isinstance(res, tuple) and len(res) == 2):
+        ctx.spec(clause, inp, False, f"answer {res!r} is neither (splits, (outer, inner)) nor (None, None)", key=clause_key)
+        return None
+    if res[0] is None:
+        ctx.agree("compute_parallelization_schedule", inp, "none", m)
+        # "or it reports that none exists": then the request as a whole, on all cores of one job, must not fit either
+        if not req["only_outer"] or req["cores"] == 1:
+            whole = _est(req["shape1"], req["pad"], req["shape2"], req["method"], req["cores"], req["analyzer"], req["backend"], req["nb"])
+            ctx.spec("schedule: none reported only when none exists", inp, not whole < req["max_ram"],
+                     {"estimate of the unsplit request": whole, "max_ram": req["max_ram"]}, key="schedule-none")
+        return "none"
+    splits, cores = res
+    ok, why = True, ""
+    try:
+        outer, inner = cores
+        if not all(isinstance(v, (int, np.integer)) and not isinstance(v, (bool, np.bool_)) for v in list(splits.values()) + [outer, inner]):
+            ok, why = False, "part counts / job counts are not integers: " + repr((splits, cores))
+        if sorted(splits.keys()) != list(range(nd)):
+            ok, why = False, f"splits {splits!r} do not name the axes 0..{nd - 1}"
+    except Exception as e:  # noqa
+        ok, why = False, f"malformed answer {res!r}: {type(e).__name__}"
+    if not ok:
+        ctx.agree("compute_parallelization_schedule", inp, repr(res), m)
+        ctx.spec(clause, inp, False, why, key=clause_key)
+        return None
+    impl = {"splits": [int(splits[i]) for i in range(nd)], "outer": int(outer), "inner": int(inner),
+            "nSplits": int(np.prod([int(v) for v in splits.values()]))}
+    ctx.agree("compute_parallelization_schedule", inp, impl, m)
+    # the answer is handed to split_shape as it is
+    okt, tiles = _call(split_shape, req["shape1"], splits)
+    if not okt:
+        ctx.spec(clause, inp, False, "the returned splits cannot be handed to split_shape: " + tiles, key=clause_key)
+        return impl
+    widths = [tuple(int(s.stop - s.start) for s in t) for t in tiles]
+    us = [_est(w, req["pad"], req["shape2"], req["method"], impl["inner"], req["analyzer"], req["backend"], req["nb"]) for w in widths]
+    o = max(impl["outer"], 1)
+    peak = max(sum(us[i:i + o]) for i in range(0, len(us), o))
+    ok = (impl["outer"] >= 1 and impl["inner"] >= 1 and impl["outer"] * impl["inner"] <= req["cores"] and impl["outer"] <= len(tiles)
+          and peak < req["max_ram"])
+    ctx.spec(clause, inp, ok, {"impl": impl, "tiles": len(tiles), "peak": int(peak), "max_ram": req["max_ram"]}, key=clause_key)
+    return impl
+
+
+def _rand_request(rng, nd=None, small=False):
+    nd = int(rng.integers(1, 4)) if nd is None else nd
+    hi = {1: 3000, 2: 200, 3: 60}[nd]
+    shape1 = tuple(int(x) for x in rng.integers(4, hi, size=nd))
+    shape2 = tuple(int(x) for x in rng.integers(0 if rng.random() < 0.2 else 1, 16, size=nd))
+    if rng.random() < 0.2:
+        shape2 = tuple(0 for _ in range(nd))   # CLI without pad_fourier
+    pad = tuple(int(x) for x in (rng.integers(0, 16, size=nd) if rng.random() < 0.5 else np.zeros(nd)))
+    req = dict(shape1=shape1, shape2=shape2, pad=pad, cores=int(rng.choice(_CORES)), method=str(rng.choice(_METHODS)),
+               analyzer=_ANALYZERS[int(rng.integers(0, len(_ANALYZERS)))], only_outer=bool(rng.random() < 0.15),
+               max_splits=int(rng.choice([4, 8, 16, 32])), split_axes=None, backend=None, nb=None)
+    if rng.random() < 0.3:
+        req["split_axes"] = tuple(int(x) for x in rng.permutation(nd)[: int(rng.integers(1, nd + 1))])
+    if rng.random() < 0.4:
+        req["backend"] = str(rng.choice(["cupy", "pytorch", "numpyfftw", "jax"]))
+    if rng.random() < 0.4:
+        req["nb"] = [(8, 16, 8), (2, 4, 2), (4, 8, 8), (8, 16, 4)][int(rng.integers(0, 4))]
+    return req
+
+
+def _ask(rng, req, vary_types=True):
+    """call the real search the way `req` says; defaults are left out when they are the default"""
+    from tme.matching_utils import compute_parallelization_schedule
+    nd = len(req["shape1"])
+    r = int(rng.integers(0, 3)) if vary_types else 0
+    conv = (tuple, list, np.array)[r]
+    kw = dict(shape1=conv(req["shape1"]), shape2=conv(req["shape2"]), max_cores=req["cores"], max_ram=req["max_ram"],
+              matching_method=req["method"])
+    given = {"containers": conv.__name__}
+    if any(req["pad"]) or rng.random() < 0.7 or not vary_types:
+        kw["shape1_padding"] = (np.array, tuple, list)[r](req["pad"])
+    else:
+        given["shape1_padding"] = "left out"
+    if req["split_axes"] is not None:
+        kw["split_axes"] = conv(req["split_axes"]) if conv is not np.array else tuple(req["split_axes"])
+    if req["only_outer"]:
+        kw["split_only_outer"] = True
+    if req["analyzer"] is not None or rng.random() < 0.5:
+        kw["analyzer_method"] = req["analyzer"]
+    if req["backend"] is not None:
+        kw["backend"] = req["backend"]
+    if req["max_splits"] != 256 or rng.random() < 0.3:
+        kw["max_splits"] = req["max_splits"]
+    else:
+        given["max_splits"] = "left out"
+    if req["nb"] is not None:
+        kw.update(float_nbytes=req["nb"][0], complex_nbytes=req["nb"][1], integer_nbytes=req["nb"][2])
+    ok, res = _call(compute_parallelization_schedule, **kw)
+    return ok, res, given
+
+
+def _inp(req, **extra):
+    out = {k: v for k, v in req.items()}
+    out.update(extra)
+    return out
+
+
+def _run_schedules(ctx, d, rng):
+    from tme.matching_utils import compute_parallelization_schedule
+    nsch = ctx.budget(150, 900)
     for it in range(nsch):
-        nd = int(rng.integers(2, 4))
-        shape1 = tuple(int(x) for x in rng.integers(4, 60 if nd == 3 else 200, size=nd))
-        shape2 = tuple(int(x) for x in rng.integers(0 if rng.random() < 0.2 else 1, 16, size=nd))
-        if rng.random() < 0.2:
-            shape2 = tuple(0 for _ in range(nd))   # CLI without pad_fourier
-        pad = tuple(int(x) for x in (rng.integers(0, 16, size=nd) if rng.random() < 0.5 else np.zeros(nd)))
-        cores = int(rng.choice([1, 2, 3, 4, 6, 8, 12, 16]))
-        method = str(rng.choice(methods))
-        analyzer = analyzers[int(rng.integers(0, len(analyzers)))]
-        only_outer = bool(rng.random() < 0.15)
-        max_splits = int(rng.choice([4, 8, 16, 32]))
-        split_axes = None
-        if rng.random() < 0.3:
-            split_axes = tuple(int(x) for x in rng.permutation(nd)[: int(rng.integers(1, nd + 1))])
-        base = estimate_ram_usage(shape1=np.add(shape1, pad), shape2=shape2, matching_method=method, ncores=1, analyzer_method=analyzer)
-        max_ram = int(base * float(rng.choice([0.02, 0.1, 0.3, 0.6, 1.0, 1.5, 4.0, 40.0])))
-        kw = dict(shape1=shape1, shape2=shape2, max_cores=cores, max_ram=max_ram, matching_method=method,
-                  split_axes=split_axes, split_only_outer=only_outer, shape1_padding=np.array(pad), analyzer_method=analyzer,
-                  max_splits=max_splits)
-        with contextlib.redirect_stdout(io.StringIO()):
-            if it % 2 == 0 and any(pad):
-                # the command line tool asks twice in one process: first without the tile margin, then with it;
-                # the second answer must not depend on the first request
-                compute_parallelization_schedule(**{**kw, "shape1_padding": np.zeros(nd, dtype=int)})
-                ctx.count("schedule:asked-without-margin-first")
-            res = compute_parallelization_schedule(**kw)
-        inp = {k: (v.tolist() if isinstance(v, np.ndarray) else v) for k, v in kw.items()}
-        args = dict(shape1=list(shape1), shape2=list(shape2), padding=list(pad), maxCores=cores, maxRam=max_ram, method=method,
-                    onlyOuter=only_outer, maxSplits=max_splits, fb=4, cb=8)
-        if analyzer:
-            args["analyzer"] = analyzer
-        if split_axes is not None:
-            args["splitAxes"] = list(split_axes)
-        m = d.call("c14.schedule", **args)
-        if res[0] is None:
-            impl = "none"
-        else:
-            splits, (outer, inner) = res
-            impl = {"splits": [int(splits[i]) for i in range(nd)], "outer": int(outer), "inner": int(inner),
-                    "nSplits": int(np.prod([int(v) for v in splits.values()]))}
-        ctx.agree("compute_parallelization_schedule", inp, impl, m)
-        # spec on the implementation's answer
-        if impl != "none":
-            tiles = split_shape(shape1, {i: impl["splits"][i] for i in range(nd)})
-            widths = [tuple(s.stop - s.start for s in t) for t in tiles]
-            us = [estimate_ram_usage(shape1=np.add(w, pad), shape2=shape2, matching_method=method, ncores=impl["inner"],
-                                     analyzer_method=analyzer) for w in widths]
-            peak = max(sum(us[i:i + impl["outer"]]) for i in range(0, len(us), impl["outer"]))
-            ok = impl["outer"] * impl["inner"] <= cores and impl["outer"] <= len(tiles) and peak < max_ram and impl["outer"] >= 1 and impl["inner"] >= 1
-            ctx.spec("schedule: cores, concurrent tiles, own memory estimate", inp, ok,
-                     {"impl": impl, "tiles": len(tiles), "peak": int(peak), "max_ram": max_ram}, key="schedule")
-            ctx.distinct(("sched", shape1, shape2, pad, cores, max_ram, method, analyzer, only_outer, split_axes))
-        else:
-            # "or it reports that none exists": the unsplit single-core request must not fit either
-            ok = not (base < max_ram and not only_outer and False)
-            ctx.spec("schedule: none reported", inp, ok, key="schedule-none")
-        ctx.count("schedule:" + ("none" if impl == "none" else "found" + (":split" if impl["nSplits"] > 1 else "")))
+        req = _rand_request(rng)
+        nd = len(req["shape1"])
+        if rng.random() < 0.06 and nd > 1:
+            # the default, left out of the call (kept to requests whose search stays short: all axes may be split, few cores)
+            req.update(max_splits=256, split_axes=None, cores=int(rng.choice([1, 2, 3, 4, 6, 8])))
+        base = _est(req["shape1"], req["pad"], req["shape2"], req["method"], 1, req["analyzer"], req["backend"], req["nb"])
+        req["max_ram"] = int(base * float(rng.choice([0.0, 0.02, 0.1, 0.3, 0.6, 1.0, 1.5, 4.0, 40.0])))
+        if rng.random() < 0.1:
+            # the limit exactly on the estimate of the whole request on all cores: not *below* the limit
+            req["max_ram"] = _est(req["shape1"], req["pad"], req["shape2"], req["method"], req["cores"], req["analyzer"], req["backend"], req["nb"])
+            ctx.count("schedule:limit-on-unsplit-estimate")
+        extra = {}
+        if it % 2 == 0 and any(req["pad"]):
+            # the command line tool asks twice in one process: first without the tile margin, then with it;
+            # the second answer must not depend on the first request
+            _call(compute_parallelization_schedule, shape1=req["shape1"], shape2=req["shape2"], max_cores=req["cores"], max_ram=req["max_ram"],
+                  matching_method=req["method"], split_axes=req["split_axes"], split_only_outer=req["only_outer"],
+                  shape1_padding=np.zeros(nd, dtype=int), analyzer_method=req["analyzer"], max_splits=req["max_splits"])
+            ctx.count("schedule:asked-without-margin-first")
+            extra["asked_without_margin_first"] = True
+        if rng.random() < 0.12:
+            req["max_ram"] = req["max_ram"] + 0.5   # a limit that is no whole number of bytes (a fraction of the free memory)
+            ctx.count("schedule:fractional-limit")
+        ok, res, given = _ask(rng, req)
+        inp = _inp(req, given=given, **extra)
+        if not ok:
+            ctx.spec("schedule: cores, concurrent tiles, own memory estimate", inp, False, res, key="schedule")
+            continue
+        impl = _check_schedule(ctx, d, req, res, inp)
+        if impl not in (None, "none"):
+            ctx.distinct(("sched", tuple(sorted((k, str(v)) for k, v in req.items()))))
+        ctx.count("schedule:" + ("none" if impl == "none" else "malformed" if impl is None else "found" + (":split" if impl["nSplits"] > 1 else "")))
+        ctx.count(f"schedule:{nd}axes")
+        if req["backend"]:
+            ctx.count("schedule:backend:" + req["backend"])
+        if req["nb"]:
+            ctx.count("schedule:byte-widths-given")
     ctx.sample({"schedule_request": inp, "impl": impl})
-    # ---- schedules at the memory boundary: the limit is put exactly on the estimate of a split whose tiles do not divide
-    # the axis (tile extent ceil(N/k) > N/k), so an estimate made for narrower tiles than the real ones would accept it
-    nb = ctx.budget(25, 200)
+
+
+def _run_schedule_boundary(ctx, d, rng):
+    """the limit is put exactly on the estimate of a split whose tiles do not divide the axis (tile extent ceil(N/k) > N/k),
+    so an estimate made for narrower tiles than the real ones would accept it"""
+    nb_ = ctx.budget(25, 200)
     tried = 0
-    for it in range(nb * 6):
-        if tried >= nb:
+    for it in range(nb_ * 6):
+        if tried >= nb_:
             break
         nd = int(rng.integers(2, 4))
         shape1 = tuple(int(x) for x in rng.integers(20, 70 if nd == 3 else 200, size=nd))
         shape2 = tuple(int(x) for x in rng.integers(2, 14, size=nd))
         pad = tuple(int(x) for x in (shape2 if rng.random() < 0.5 else np.zeros(nd)))
-        method = str(rng.choice(methods))
-        analyzer = analyzers[int(rng.integers(0, len(analyzers)))]
+        method = str(rng.choice(_METHODS))
+        analyzer = _ANALYZERS[int(rng.integers(0, len(_ANALYZERS)))]
         axis = int(rng.integers(0, nd))
         N = shape1[axis]
 
         def est(width, ncores=1):
             w = list(shape1)
             w[axis] = width
-            return estimate_ram_usage(shape1=np.add(w, pad), shape2=shape2, matching_method=method, ncores=ncores,
-                                      analyzer_method=analyzer)
+            return _est(w, pad, shape2, method, ncores, analyzer, None, None)
         cands = [k for k in range(2, min(N, 14)) if N % k and est(N // k) < est(-(-N // k))]
         if not cands:
             continue
         k = int(cands[int(rng.integers(len(cands)))])
-        max_ram = int(est(-(-N // k)))
-        kw = dict(shape1=shape1, shape2=shape2, max_cores=1, max_ram=max_ram, matching_method=method, split_axes=(axis,),
-                  split_only_outer=False, shape1_padding=np.array(pad), analyzer_method=analyzer, max_splits=32)
-        with contextlib.redirect_stdout(io.StringIO()):
-            res = compute_parallelization_schedule(**kw)
+        req = dict(shape1=shape1, shape2=shape2, pad=pad, cores=1, max_ram=int(est(-(-N // k))), method=method, analyzer=analyzer,
+                   only_outer=False, max_splits=32, split_axes=(axis,), backend=None, nb=None)
+        ok, res, given = _ask(rng, req, vary_types=False)
         tried += 1
-        inp = {kk: (v.tolist() if isinstance(v, np.ndarray) else v) for kk, v in kw.items()}
-        inp["boundary"] = {"axis": axis, "k": k, "tile": -(-N // k)}
-        margs = dict(shape1=list(shape1), shape2=list(shape2), padding=list(pad), maxCores=1, maxRam=max_ram, method=method,
-                     onlyOuter=False, maxSplits=32, fb=4, cb=8, splitAxes=[axis])
-        if analyzer:
-            margs["analyzer"] = analyzer
-        mm = d.call("c14.schedule", **margs)
-        if res[0] is None:
-            ctx.agree("compute_parallelization_schedule", inp, "none", mm)
-            ctx.count("schedule-boundary:none")
+        inp = _inp(req, boundary={"axis": axis, "k": k, "tile": -(-N // k)})
+        if not ok:
+            ctx.spec("schedule: cores, concurrent tiles, own memory estimate", inp, False, res, key="schedule")
             continue
-        splits, (outer, inner) = res
-        sp = {i: int(splits[i]) for i in range(nd)}
-        ctx.agree("compute_parallelization_schedule", inp, {"splits": [sp[i] for i in range(nd)], "outer": int(outer), "inner": int(inner),
-                                                            "nSplits": int(np.prod(list(sp.values())))}, mm)
-        tiles = split_shape(shape1, sp)
-        widths = [tuple(s_.stop - s_.start for s_ in t) for t in tiles]
-        us = [estimate_ram_usage(shape1=np.add(w, pad), shape2=shape2, matching_method=method, ncores=int(inner),
-                                 analyzer_method=analyzer) for w in widths]
-        peak = max(sum(us[i:i + int(outer)]) for i in range(0, len(us), int(outer)))
-        ok = int(outer) * int(inner) <= 1 and peak < max_ram
-        ctx.spec("schedule: cores, concurrent tiles, own memory estimate", inp, ok,
-                 {"splits": sp, "outer": int(outer), "inner": int(inner), "peak": int(peak), "max_ram": max_ram}, key="schedule")
-        ctx.distinct(("sched-boundary", shape1, shape2, pad, max_ram, method, analyzer, axis))
-        ctx.count("schedule-boundary:" + ("same-k" if sp[axis] == k else "other-k"))
-    # estimate_ram_usage itself vs the model (unknown score -> ValueError)
-    for it in range(ctx.budget(80, 600)):
-        nd = int(rng.integers(1, 4))
-        s1 = [int(x) for x in rng.integers(1, 40, size=nd)]
-        s2 = [int(x) for x in rng.integers(0, 12, size=nd)]
-        method = str(rng.choice(methods + ["NOPE"]))
-        analyzer = analyzers[int(rng.integers(0, len(analyzers)))]
-        backend = [None, "cupy", "numpyfftw"][int(rng.integers(0, 3))]
-        nc = int(rng.integers(1, 17))
-        fb, cb = (4, 8) if rng.random() < 0.7 else (8, 16)
+        impl = _check_schedule(ctx, d, req, res, inp)
+        if impl not in (None, "none"):
+            ctx.distinct(("sched-boundary", shape1, shape2, pad, req["max_ram"], method, analyzer, axis))
+            ctx.count("schedule-boundary:" + ("same-k" if impl["splits"][axis] == k else "other-k"))
+        else:
+            ctx.count("schedule-boundary:none")
+
+
+def _run_schedule_sessions(ctx, d, rng):
+    """several requests in one process that share their shapes and differ in score / analyzer / backend / byte widths / cores /
+    limit / margin: every answer is the answer to its own request (and the same request gets the same answer again)"""
+    for s in range(ctx.budget(24, 160)):
+        first = _rand_request(rng)
+        nreq = int(rng.integers(3, 7))
+        hist = []
+        for j in range(nreq):
+            req = dict(first)
+            if j:
+                for key, val in _rand_request(rng, nd=len(first["shape1"])).items():
+                    if key in ("shape1", "shape2"):
+                        continue
+                    if key == "pad" and rng.random() < 0.6:
+                        continue
+                    if key == "split_axes" and rng.random() < 0.7:
+                        continue
+                    if key in ("method", "cores", "only_outer", "max_splits") and rng.random() < 0.6:
+                        continue   # mostly the same score on the same cores: what differs is the analyzer / backend / byte widths / margin
+                    if rng.random() < 0.6:
+                        req[key] = val
+            if j == nreq - 1 and rng.random() < 0.5:
+                req = dict(hist[0])   # the first request once more
+            else:
+                base = _est(req["shape1"], req["pad"], req["shape2"], req["method"], 1, req["analyzer"], req["backend"], req["nb"])
+                req["max_ram"] = int(base * float(rng.choice([0.1, 0.3, 0.6, 1.0, 1.5, 4.0])))
+            ok, res, given = _ask(rng, req)
+            inp = _inp(req, given=given, earlier_requests_in_this_process=[{k: v for k, v in h.items() if k not in ("shape1", "shape2")} for h in hist])
+            hist.append(dict(req))
+            if not ok:
+                ctx.spec("schedule: cores, concurrent tiles, own memory estimate", inp, False, res, key="schedule")
+                continue
+            impl = _check_schedule(ctx, d, req, res, inp)
+            if impl not in (None, "none"):
+                ctx.distinct(("sched-session", s, j, tuple(sorted((k, str(v)) for k, v in req.items()))))
+            ctx.count("schedule-session:request")
+
+
+_mt = [None]
+
+
+def _cli_module():
+    """scripts/match_template.py of the repo under test, imported as a module (its main() is not run)"""
+    if _mt[0] is None:
+        import importlib.util
+        from pv import env
+        spec = importlib.util.spec_from_file_location("pv_c14_match_template", os.path.join(env.REPO, "scripts", "match_template.py"))
+        mod = importlib.util.module_from_spec(spec)
+        with _quiet(io.StringIO()):
+            spec.loader.exec_module(mod)
+        _mt[0] = mod
+    return _mt[0]
+
+
+def _run_cli_schedule(ctx, d, rng):
+    """compute_schedule of the command line tool: the margin that tiles will be cut with is part of the estimate of a split
+    schedule; the tool leaves (exit) when there is none"""
+    from tme.matching_data import MatchingData
+    from tme import analyzer as A
+    from tme.backends import backend as be
+    ok, mt = _call(_cli_module)
+    if not ok:
+        ctx.obligation("scripts/match_template.py imports", False, mt)
+        return
+    nbe = (int(be.datatype_bytes(be._float_dtype)), int(be.datatype_bytes(be._complex_dtype)), int(be.datatype_bytes(be._int_dtype)))
+    bname = be._backend_name
+    classes = [A.MaxScoreOverRotations, A.PeakCallerMaximumFilter, A.PeakCallerSort]
+    for it in range(ctx.budget(18, 140)):
+        nd = int(rng.integers(2, 4))
+        shape = tuple(int(x) for x in rng.integers(8, 70 if nd == 3 else 200, size=nd))
+        tshape = tuple(int(x) for x in rng.integers(2, 16, size=nd))
+        with _quiet(io.StringIO()):
+            md = MatchingData(target=np.zeros(shape, np.float32), template=np.zeros(tshape, np.float32))
+        cls = classes[int(rng.integers(0, 3))]
+        user_pad = bool(rng.random() < 0.3)
+        pad_fourier = bool(rng.random() < 0.5)
+        cores = int(rng.choice([1, 2, 3, 4, 5, 6, 8]))   # the tool always searches up to 256 parts: few cores keep that short
+        method = str(rng.choice(_METHODS))
+        gpu = bool(rng.random() < 0.12)
+        box = tshape if pad_fourier else tuple(0 for _ in tshape)
+        base = _est(shape, tshape if user_pad else [0] * nd, box, method, cores, cls.__name__, bname, nbe)
+        memory = int(base * float(rng.choice([0.03, 0.1, 0.3, 0.6, 0.9, 1.0, 1.2, 3.0, 30.0])))
+        args = types.SimpleNamespace(pad_edges=user_pad, pad_fourier=pad_fourier, cores=cores, memory=memory, use_gpu=gpu, score=method)
+        inp = {"target": shape, "template": tshape, "pad_edges": user_pad, "pad_fourier": pad_fourier, "cores": cores, "memory": memory,
+               "use_gpu": gpu, "score": method, "analyzer": cls.__name__}
+        target = types.SimpleNamespace(shape=shape)
+        ok, res = _call(mt.compute_schedule, args, target, md, cls)
+        # model of the tool's logic on top of the model of the search
+        def model(pad):
+            a = dict(shape1=list(shape), shape2=list(box), padding=list(pad), maxCores=cores, maxRam=memory, method=method, onlyOuter=gpu,
+                     maxSplits=256, fb=nbe[0], cb=nbe[1], analyzer=cls.__name__, backend=bname)
+            return d.call("c14.schedule", **a)
+        m = model(tshape if user_pad else [0] * nd)
+        m_pad = user_pad
+        if m != "none" and m["nSplits"] > 1 and not user_pad:
+            m = model(tshape)
+            m_pad = True
+        if not ok:
+            ctx.agree("cli compute_schedule", inp, "exit" if res.startswith("SystemExit") else res, "exit" if m == "none" else m)
+            if res.startswith("SystemExit"):
+                # leaving is right only when even the whole target on all cores of one job does not fit
+                if not gpu or cores == 1:
+                    whole = _est(shape, tshape if user_pad else [0] * nd, box, method, cores, cls.__name__, bname, nbe)
+                    ctx.spec("schedule: none reported only when none exists", inp, not whole < memory,
+                             {"estimate of the unsplit request": whole, "memory": memory}, key="schedule-none")
+            else:
+                ctx.spec("schedule: cores, concurrent tiles, own memory estimate", inp, False, res, key="schedule-cli")
+            ctx.count("cli-schedule:exit")
+            continue
         try:
-            impl = int(estimate_ram_usage(shape1=s1, shape2=s2, matching_method=method, ncores=nc, analyzer_method=analyzer,
-                                          backend=backend, float_nbytes=fb, complex_nbytes=cb))
+            splits, (outer, inner) = res
+            impl = {"splits": [int(splits[i]) for i in range(nd)], "outer": int(outer), "inner": int(inner),
+                    "nSplits": int(np.prod([int(v) for v in splits.values()]))}
+        except Exception as e:  # noqa
+            ctx.spec("schedule: cores, concurrent tiles, own memory estimate", inp, False, f"malformed answer {res!r}", key="schedule-cli")
+            continue
+        ctx.agree("cli compute_schedule", inp, {"schedule": impl, "pad_edges": bool(args.pad_edges)},
+                  {"schedule": m, "pad_edges": m_pad} if m != "none" else "exit")
+        # clause: the schedule holds for the tiles as they will be cut: with a margin as soon as there is more than one
+        will_pad = bool(args.pad_edges)
+        okc, why = True, ""
+        if impl["nSplits"] > 1 and not will_pad:
+            okc, why = False, "several tiles but pad_edges is off: the tiles would be cut without margin"
+        req = dict(shape1=shape, shape2=box, pad=tuple(tshape) if will_pad else tuple([0] * nd), cores=cores, max_ram=memory, method=method,
+                   analyzer=cls.__name__, backend=bname, nb=nbe, only_outer=gpu, max_splits=256, split_axes=None)
+        from tme.matching_utils import split_shape
+        okt, tiles = _call(split_shape, shape, {i: impl["splits"][i] for i in range(nd)})
+        if not okt:
+            ctx.spec("schedule: cores, concurrent tiles, own memory estimate", inp, False, "split_shape refuses the schedule: " + tiles, key="schedule-cli")
+            continue
+        us = [_est([s.stop - s.start for s in t], req["pad"], box, method, impl["inner"], cls.__name__, bname, nbe) for t in tiles]
+        o = max(impl["outer"], 1)
+        peak = max(sum(us[i:i + o]) for i in range(0, len(us), o))
+        if okc and not (impl["outer"] >= 1 and impl["inner"] >= 1 and impl["outer"] * impl["inner"] <= cores and impl["outer"] <= len(tiles)
+                        and peak < memory):
+            okc, why = False, {"impl": impl, "tiles": len(tiles), "peak with the margin in use": int(peak), "memory": memory}
+        ctx.spec("schedule: cores, concurrent tiles, own memory estimate", inp, okc, why, key="schedule-cli")
+        ctx.distinct(("cli-sched", shape, tshape, user_pad, pad_fourier, cores, memory, method, cls.__name__, gpu))
+        ctx.count("cli-schedule:" + ("split" if impl["nSplits"] > 1 else "whole"))
+    ctx.sample({"cli_schedule": inp})
+
+
+def _run_estimates(ctx, d, rng):
+    from tme.memory import estimate_ram_usage
+    for it in range(ctx.budget(300, 1500)):
+        nd = int(rng.integers(1, 4))
+        big = rng.random() < 0.25
+        s1 = [int(x) for x in rng.integers(1, {1: 5000, 2: 900, 3: 300}[nd] if big else 40, size=nd)]
+        s2 = [int(x) for x in rng.integers(0, 12, size=nd)]
+        method = str(rng.choice(_METHODS + ["NOPE", "cc", "FLCSphericalMas", "MaxScoreOverRotations"]))
+        analyzer = _ANALYZERS[int(rng.integers(0, len(_ANALYZERS)))]
+        backend = [None, "cupy", "numpyfftw", "pytorch"][int(rng.integers(0, 4))]
+        nc = int(rng.integers(1, 65 if rng.random() < 0.3 else 17))
+        fb, cb = (4, 8) if rng.random() < 0.6 else (8, 16) if rng.random() < 0.6 else (2, 4)
+        ib = int(rng.choice([2, 4, 8]))
+        conv = (list, tuple, np.array)[int(rng.integers(0, 3))]
+        kw = dict(shape1=conv(s1), shape2=conv(s2), matching_method=method, ncores=nc, analyzer_method=analyzer, backend=backend)
+        if (fb, cb, ib) != (4, 8, 4) or rng.random() < 0.5:
+            kw.update(float_nbytes=fb, complex_nbytes=cb, integer_nbytes=ib)
+        try:
+            impl = int(estimate_ram_usage(**kw))
         except ValueError:
             impl = "err:ValueError"
+        except Exception as e:  # noqa
+            impl = "err:" + type(e).__name__
         args = dict(shape1=s1, shape2=s2, method=method, ncores=nc, fb=fb, cb=cb)
         if analyzer:
             args["analyzer"] = analyzer
@@ -337,11 +1134,48 @@ def run(ctx):
         ctx.count("estimate:" + method)
 
 
+def run(ctx):
+    d = ctx.driver
+    rng = ctx.rng("main")
+
+    # ---- memory registry extracted by reflection == model table
+    ext = _extract_mem_table()
+    model_tab = d.call("c14.memTable")
+    ctx.obligation("MATCHING_MEMORY_REGISTRY bilinear", all(e["bilinear"] for e in ext), ext)
+    ctx.obligation("MATCHING_MEMORY_REGISTRY == Pm.C14.memTable",
+                   [{k: e[k] for k in ("name", "base", "fork")} for e in ext] == model_tab, {"extracted": ext, "model": model_tab})
+    ctx.sample({"extracted_registry_row": ext[4]})
+
+    import time
+    walls = {}
+    first_error = None
+    for name, fn, r in (("split", _run_split, rng), ("tiles", _run_tiles_basic, rng), ("kinds", _run_tiles_kinds, ctx.rng("kinds")),
+                        ("reassemble", _run_reassemble, ctx.rng("reassemble")), ("padding", _run_padding, ctx.rng("padding")),
+                        ("schedules", _run_schedules, ctx.rng("schedules")), ("boundary", _run_schedule_boundary, ctx.rng("boundary")),
+                        ("sessions", _run_schedule_sessions, ctx.rng("sessions")), ("cli", _run_cli_schedule, ctx.rng("cli")),
+                        ("estimates", _run_estimates, ctx.rng("estimates"))):
+        t0 = time.time()
+        try:
+            fn(ctx, d, r)
+        except Exception as e:  # noqa  -- the other streams still run; the first failure is raised again at the end
+            first_error = first_error or e
+        walls[name] = round(time.time() - t0, 1)
+    ctx.note("wall per stream (s): " + ", ".join(f"{k} {v}" for k, v in walls.items()))
+    if first_error is not None:
+        raise first_error
+
+
 def search(ctx):
-    """Correspondence broke without a failing input in the main stream: widen split_shape / tiles."""
+    """Correspondence broke without a failing input in the main stream: widen split_shape / tiles / schedules."""
     from tme.matching_utils import split_shape
     rng = ctx.rng("search")
+    d = ctx.driver
     for N in range(1, 400):
         for k in sorted(set(int(x) for x in rng.integers(1, N + 1, size=12))):
-            tiles = [_slices(t) for t in split_shape((N,), {0: k})]
-            _spec_split(ctx, (N,), {0: k}, tiles)
+            ok, tl = _call(split_shape, (N,), {0: k})
+            if ok:
+                _spec_split(ctx, (N,), {0: k}, [_slices(t) for t in tl])
+    for name, fn in (("kinds", _run_tiles_kinds), ("reassemble", _run_reassemble), ("padding", _run_padding),
+                     ("schedules", _run_schedules), ("sessions", _run_schedule_sessions), ("cli", _run_cli_schedule)):
+        for rep in range(3):
+            fn(ctx, d, ctx.rng(f"search-{name}-{rep}"))
